@@ -431,7 +431,7 @@ def gen_facts(rng, sig, n_elems=(2, 4), density=0.5, max_facts=14):
             labels[e["name"]].append(lab)
     facts = []
     rels = sorted(sig.rels)
-    target = rng.randint(1, max_facts)
+    target = rng.randint(1, max_facts) if rels else 0
     nd = 0
     for _ in range(target * 3):
         if len(facts) >= target:
